@@ -437,6 +437,15 @@ func (b *assignmentBuilder) isStructFieldAccessible(structNode bmodel.Node, leaf
 	if !util.IsStructType(structType) {
 		return false
 	}
+	// A member belongs to the package that declared it, whatever the name of the type it is reached
+	// through (`type Row ext.Record` has ext's unexported members).
+	if st, ok := structType.Underlying().(*types.Struct); ok {
+		for i := 0; i < st.NumFields(); i++ {
+			if f := st.Field(i); f.Name() == leafName && f.Pkg() != nil {
+				return f.Exported() || !b.isExternalPkg(f.Pkg())
+			}
+		}
+	}
 	if named, ok := structType.(*types.Named); ok {
 		return !b.isExternalPkg(named.Obj().Pkg()) || ast.IsExported(leafName)
 	}
